@@ -10,6 +10,7 @@ from symx import run
 MODULES = {
     "C01": "harness.rewrite",
     "C02": "harness.rewrite",
+    "C03": "harness.rewrite",
     "C04": "harness.rewrite",
     "C06": "harness.rewrite",
     "C14": "harness.dwarf",
